@@ -46,6 +46,7 @@ class Report:
         self.undecided = []
         self.notes = []
         self.floors = []
+        self.facts = []  # cross-unit facts for finalize() (JSON-able lists)
 
     # ---------------------------------------------------------------- api
     def ok(self, rule, descr=None, sample=False):
@@ -91,6 +92,7 @@ class Report:
             "undecided": self.undecided,
             "notes": self.notes,
             "floors": self.floors,
+            "facts": self.facts,
         }
 
     def merge(self, d):
@@ -116,6 +118,9 @@ class Report:
         self.undecided.extend(d["undecided"])
         self.notes.extend(d["notes"])
         self.floors.extend(tuple(x) for x in d["floors"])
+        for f in d.get("facts", []):
+            if f not in self.facts:
+                self.facts.append(f)
 
 
 # ---------------------------------------------------------------------------
